@@ -27,6 +27,69 @@ PROPS = {
         design_ref='DESIGN.md section 6 / C18',
         explanation='get/set/match laws of Place and Segment as postconditions of the real accessor functions (Verus, bit-vector lemmas) and as complete loop-free Kani harnesses over all 2^16+1 places x all bytes',
     ),
+
+    'C04': dict(
+        level='proof',
+        kernels=['segment'],
+        trusted_base=[],
+        assumptions=['the interpreter calls these leaf functions with the position it selected (position selection, application to every copy of a long segment and feature-name lexing are glue: C03/C13)'],
+        glue=['SubRule::apply / input_match_at / transform / substitution choose WHICH segment is matched or rewritten', 'Syllable::apply_seg_mods loop over the copies of a long segment (Kani: frame only)', 'feature-name lexing (C13)'],
+        level_text='Proof at segment level, for all well-formed segments and all matrices: Segment::apply_seg_mods and the SubRule match functions are checked against a whole-view spec function taken from the property text (named features get the named value, +F creates an absent sub-node with its other features negative, -F on an absent node does nothing, -node/-place removes, everything unnamed is kept; alphas capture and re-apply the value or its inverse) by complete Kani/CBMC harnesses (fixed 8- and 26-trip loops fully unwound, unwinding assertions on), on top of the Verus-proved accessor contracts and feature->bit table.',
+        level_note='Decides matrix semantics of the leaf functions only; which position the interpreter applies them to is not under contract. Kani builds replace the binding-table HashMap by a loop-free association list.',
+        technique='contract-based deductive verification (Verus contracts on accessors + complete Kani/CBMC harnesses of apply_seg_mods / match_* against a spec function of the view)',
+        design_ref='DESIGN.md section 6 / C04',
+        explanation='M1 matching, P1-P5 setting, A1/A2 alpha capture and application as postconditions over the whole segment view',
+    ),
+    'C05': dict(
+        level='proof',
+        kernels=['supras'],
+        trusted_base=[],
+        assumptions=['ModKind::as_bool contract is assumed in the Verus kernel and proved for the real body by Kani harness k4_as_bool',
+                     'apply_supras is specified from the position it is given; that callers pass the START of a run (run_start) is unchecked at call sites (substitution next_pos re-entering the tail of a long segment is NOT detected)',
+                     'run length <= 128 (i8 length counter) is a precondition of apply_supras; see C02 finding'],
+        glue=['SubRule::substitution / transform cursor logic (which position apply_supras is called at)', 'Word::seg_length_at callers'],
+        level_text='Proof for all inputs: the manual\'s three-way tables for length, stress and tone are spec functions (len_ok/len_target, stress_ok/stress_target); Syllable::get_seg_length_at, apply_supras (every one of its eight resize loops, for syllables of any length) and apply_syll_mods are verified against them by Verus with loop invariants; the set-then-match laws are lemmas over the tables; the matching side (match_stress, match_tone) is proved by complete Kani harnesses; match_seg_length by a Kani harness bounded to 4-segment syllables (listed as bounded).',
+        level_note='The defect reported in the property text (V > [+long] over-lengthening an already long vowel) lives in the scan cursor of SubRule::substitution, outside every contract here, and is not detected by this check.',
+        technique='contract-based deductive verification (Verus requires/ensures/loop invariants on extracted Syllable functions + complete Kani/CBMC harnesses for the match tables)',
+        design_ref='DESIGN.md section 6 / C05',
+        explanation='length / stress / tone tables as postconditions; unbounded in syllable length',
+    ),
+    'C07': dict(
+        level='proof',
+        kernels=['supras'],
+        trusted_base=[],
+        assumptions=['only the alpha half of the property: variables (capture, write-back, comparison in contexts) live in input_match_* / substitution / insert and are not under contract'],
+        glue=['variable capture and write-back (SubRule::input_match_*, substitution, insert, context_match_var)', 'that the interpreter applies the output matrix to the element the alpha was read from'],
+        level_text='Proof for the alpha half: for every well-formed segment, binding an alpha by matching (feature, node, place; stress) and writing it back onto the same element leaves it unchanged -- complete Kani harnesses composing the real match_* and apply_* functions; the length identity is a Verus lemma over the apply_supras contract and the Kani-proved capture rule. One known finding (secondary stress).',
+        level_note='Variables are not covered. Known finding C07-alpha-stress-secondary is reported as KNOWN-FINDING, not as a violation.',
+        technique='contract-based deductive verification (composition of Kani-proved match/apply contracts; Verus lemma for length)',
+        design_ref='DESIGN.md section 6 / C07',
+        explanation='alpha capture -> re-application identities',
+    ),
+    'C08': dict(
+        level='proof',
+        kernels=['segment', 'supras'],
+        trusted_base=[],
+        assumptions=['cardinals.json / diacritics.json segments are assumed well formed (data, not code; not checked here)', 'only the feature-bundle clause: "no empty syllable", "at least one syllable" and the tone caps live in transform/substitution/concat_tone/Word::setup and are not under contract'],
+        glue=['SubRule::transform / substitution / deletion clean-up of empty syllables', 'SubRule::concat_tone, Word::setup tone cap, Parser tone literal'],
+        level_text='Proof of the bundle clause as an inductive invariant: wf(Segment) (root, laryngeal <= 7; no payload bits under an absent place sub-node; an empty place is None) is preserved by every function that writes a Segment -- Place setters, set_node, set_feat (Verus), apply_seg_mods incl. alpha copies, apply_diacritic_payload (complete Kani harnesses); apply_supras / apply_syll_mods only copy or delete whole segments (Verus).',
+        level_note='Decides only the "feature bundle internally consistent" clause of the property; syllable-count and tone clauses are not decided.',
+        technique='contract-based deductive verification (type invariant preserved by every mutator: Verus + complete Kani harnesses)',
+        design_ref='DESIGN.md section 6 / C08',
+        explanation='wf(Segment) preserved by all segment mutators',
+    ),
+    'C14': dict(
+        level='proof',
+        kernels=['supras'],
+        trusted_base=[],
+        assumptions=['leaf level only: boundary insertion/deletion, $-metathesis and syllable split/merge are inside transform/substitution/insert and not under contract'],
+        glue=['SubRule::transform / substitution / insert (boundary handling)', 'Syllable::apply_seg_mods loop (applies Segment::apply_seg_mods to each copy, then apply_supras)'],
+        level_text='Proof at the Syllable API: frame clauses of the contracts -- apply_syll_mods never touches segments; apply_supras with only stress/tone modifiers leaves the segment sequence identical, with only length modifiers leaves stress and tone alone (Verus, any syllable length); Segment::apply_seg_mods has no access to prosody (it takes one Segment).',
+        level_note='Tier separation is decided for the leaf functions only.',
+        technique='contract-based deductive verification (frame postconditions, Verus + Kani)',
+        design_ref='DESIGN.md section 6 / C14',
+        explanation='frame conditions between the segmental and the prosodic tier',
+    ),
 }
 
 SOURCE_COMMITS = []
